@@ -1468,7 +1468,9 @@ namespace T
       AK_CHANGE_ACTION_AND_STATES,
       AK_CHANGE_CONTROL,
       AK_ENABLE_ACTION,
-      AK_DISABLE_ACTION
+      AK_DISABLE_ACTION,
+      AK_CHANGE_STATE_D,             // change_state with a state that is only default constructible
+      AK_CHANGE_ACTION_AND_STATE_D
    };
    struct Attach
    {
@@ -1484,16 +1486,20 @@ namespace T
          case 11: return I >= 1 ? Attach{ AK_LIMIT_DEPTH, 1 } : Attach{ AK_NONE, 0 };
          case 12: return I == 0 ? Attach{ AK_APPLY, 0 } : I == 1 ? Attach{ AK_CHANGE_STATE, 0 } : I == 2 ? Attach{ AK_CHANGE_ACTION, 0 } : Attach{ AK_DISABLE_ACTION, 0 };
          case 13: return I == 0 ? Attach{ AK_APPLY, 0 } : I == 1 ? Attach{ AK_CHANGE_STATES, 0 } : I == 2 ? Attach{ AK_CHANGE_ACTION_AND_STATE, 0 } : Attach{ AK_ENABLE_ACTION, 0 };
-         case 14: return I == 0 ? Attach{ AK_APPLY, 0 } : I == 1 ? Attach{ AK_CHANGE_CONTROL, 0 } : I == 2 ? Attach{ AK_CHANGE_ACTION_AND_STATES, 0 } : Attach{ AK_APPLY, 0 };
-         case FAM_ALT: return Attach{ AK_APPLY, 0 };
+         case 14: return I == 0 ? Attach{ AK_APPLY, 0 } : I == 1 ? Attach{ AK_CHANGE_CONTROL, 0 } : I == 2 ? Attach{ AK_CHANGE_ACTION_AND_STATES, 0 } : Attach{ AK_CHANGE_ACTION_AND_STATE, 0 };
+         case 16: return I == 0 ? Attach{ AK_APPLY, 0 } : I == 1 ? Attach{ AK_CHANGE_STATE_D, 0 } : I == 2 ? Attach{ AK_CHANGE_ACTION_AND_STATE_D, 0 } : Attach{ AK_APPLY, 0 };
+         case FAM_ALT: return I == 3 ? Attach{ AK_CHANGE_STATE, 0 } : Attach{ AK_APPLY, 0 };  // a switch inside the family switched to
       }
       return Attach{ AK_NONE, 0 };
    }
 
    // logging state (C13)
-   struct LogState
+   struct StateBase
    {
       int id;
+   };
+   struct LogState : StateBase
+   {
       template< typename In, typename... Outer >
       static int outer_id( Outer&&... )
       {
@@ -1503,24 +1509,23 @@ namespace T
       {
          return -1;
       }
-      template< typename... Rest >
-      static int first_id( const LogState& s, Rest&&... )
-      {
-         return s.id;
-      }
+
       template< typename T, typename... Rest >
-      static int first_id( const T&, Rest&&... rest )
+      static int first_id( const T& t, Rest&&... rest )
       {
-         return first_id( rest... );
+         if constexpr( std::is_base_of_v< StateBase, T > )
+            return static_cast< const StateBase& >( t ).id;
+         else
+            return first_id( rest... );
       }
       template< typename In, typename... Outer >
       explicit LogState( const In& in, Outer&&... outer )
-         : id( st_next_id++ )
+         : StateBase{ st_next_id++ }
       {
          st_log.push_back( { 0, id, int( in.current() - g_begin ), first_id( outer... ) } );
       }
       LogState()
-         : id( st_next_id++ )
+         : StateBase{ st_next_id++ }
       {
          st_log.push_back( { 0, id, -1, -2 } );  // default constructed (change_states)
       }
@@ -1531,6 +1536,25 @@ namespace T
          st_log.push_back( { 1, id, int( in.current() - g_begin ), first_id( outer... ) } );
       }
       ~LogState()
+      {
+         st_log.push_back( { 2, id, -1, -1 } );
+      }
+   };
+   // a state that can only be default constructed: change_state takes its second branch
+   struct LogStateD : StateBase
+   {
+      LogStateD()
+         : StateBase{ st_next_id++ }
+      {
+         st_log.push_back( { 0, id, -1, -2 } );
+      }
+      LogStateD( const LogStateD& ) = delete;
+      template< typename In, typename... Outer >
+      void success( const In& in, Outer&&... outer )
+      {
+         st_log.push_back( { 1, id, int( in.current() - g_begin ), LogState::first_id( outer... ) } );
+      }
+      ~LogStateD()
       {
          st_log.push_back( { 2, id, -1, -1 } );
       }
@@ -1594,6 +1618,12 @@ namespace T
    struct sw_impl< Fam, I, AK_CHANGE_CONTROL, N > : p::change_control< mon2 >
    {};
    template< int Fam, unsigned I, int N >
+   struct sw_impl< Fam, I, AK_CHANGE_STATE_D, N > : p::change_state< LogStateD >
+   {};
+   template< int Fam, unsigned I, int N >
+   struct sw_impl< Fam, I, AK_CHANGE_ACTION_AND_STATE_D, N > : p::change_action_and_state< fam_alt, LogStateD >
+   {};
+   template< int Fam, unsigned I, int N >
    struct sw_impl< Fam, I, AK_ENABLE_ACTION, N > : p::enable_action
    {};
    template< int Fam, unsigned I, int N >
@@ -1614,6 +1644,7 @@ namespace T
    template< typename Rule > struct fam12 : sw_act< 12, Rule > {};
    template< typename Rule > struct fam13 : sw_act< 13, Rule > {};
    template< typename Rule > struct fam14 : sw_act< 14, Rule > {};
+   template< typename Rule > struct fam16 : sw_act< 16, Rule > {};
    template< typename Rule > struct fam_alt : sw_act< FAM_ALT, Rule > {};
    // clang-format on
 
